@@ -423,12 +423,13 @@ def run(tier: str) -> Check:
     o15_pipeline(check, repo)
     o16_skip_pass(check, repo)
     o7b_unroll_concrete(check, repo)
+    o9_skip_rule(check, repo)  # parse_trivia evaluated on scripted scenarios: semantic
     sem_ok = len(check.findings) == before and not getattr(check, "deferred", [])
     o10_truthy(check, repo, rep)
     check.second_opinion(lambda c: o2_order(c, repo, tier), "O12 on the program model", sem_ok)
     # ---- structural readings of the same passes (contradiction / registration / purity / shape rules): second
     # opinions - reported when the semantic rules fail too, notes when the passes are right but written differently
-    for fn_ in (o1_unchecked, o3_trivia, o4_purity, o5_inplace, o7_unroll, o8_inliners, o9_skip_rule, o13_fold_flags):
+    for fn_ in (o1_unchecked, o3_trivia, o4_purity, o5_inplace, o7_unroll, o8_inliners, o13_fold_flags):
         check.second_opinion(lambda c, fn_=fn_: fn_(c, repo), "O11/O12/O14/O15/O16/O7 on the program model", sem_ok)
     check.floor("truthy_skeletons", 2)
     check.floor("skip_search_model_points", 300)
